@@ -26,6 +26,9 @@ TRUSTED_BASE = [
     'translator translate/pubsub_funs.py (Python ast -> the syntax of PubSub/Syntax.v, fail-closed) and the meaning '
     'PubSub/Interp.v + PubSub/TieBroker.v give that syntax (truthiness, `is`, list copies vs live lists, generator '
     'suspension/resumption, try/finally on aclose, defaultdict lookup/pop/popitem)',
+    'generator protocol: the interpreter gives try/finally its real meaning for normal exit, return, break, raise, '
+    'aclose()/cancellation at each of the four suspension points (C08_tie_leave); NOT modelled: athrow() of another '
+    'exception, a concurrent second __anext__, GC finalisation of an abandoned generator',
     'modelled, not verified: asyncio.Queue is FIFO and unbounded put never suspends (the latter is checked per call)',
 ]
 ASSUMPTIONS = [
@@ -125,7 +128,14 @@ async def run_item(cache: bool, ops: list) -> list:
             elif k == 'latest':
                 outs.append(['latest', of_payload(obj.latest())])
             elif k == 'sub':
-                gens.append(Gen(obj.subscribe(last=op[1], cache=op[2]))); outs.append(['sid', len(gens) - 1])
+                # an argument equal to the documented default (True) is OMITTED, so that the defaults of the
+                # signature are exercised by the correspondence and the oracle as well
+                kw = {}
+                if not op[1]:
+                    kw['last'] = False
+                if not op[2]:
+                    kw['cache'] = False
+                gens.append(Gen(obj.subscribe(**kw))); outs.append(['sid', len(gens) - 1])
             elif k == 'next':
                 outs.append(await gens[op[1]].next() if op[1] < len(gens) else ['err'])
             elif k == 'leave':
@@ -161,7 +171,7 @@ async def run_broker(ops: list) -> list:
             elif k == 'latest':
                 outs.append(['latest', of_payload(obj.latest(op[1]))])
             elif k == 'sub':
-                gens.append(Gen(obj.subscribe(op[1], last=op[2]))); outs.append(['sid', len(gens) - 1])
+                gens.append(Gen(obj.subscribe(op[1]) if op[2] else obj.subscribe(op[1], last=False))); outs.append(['sid', len(gens) - 1])
             elif k == 'next':
                 outs.append(await gens[op[1]].next() if op[1] < len(gens) else ['err'])
             elif k == 'leave':
@@ -207,6 +217,19 @@ def gen_item_case(rng, maxlen: int):
         else:
             ops.append(['leave', rng.randrange(nsub)])
     return cache, ops
+
+
+def backlog_item_cases() -> list:
+    """one subscriber falls far behind (it stopped iterating without closing its generator, or is slow) while items keep
+    coming: publish / clear / close must complete at once however many items are pending for it, the others get everything"""
+    out = []
+    for n in (120, 260):
+        for cache in (False, True):
+            ops = [['sub', True, True], ['sub', False, False], ['next', 0], ['next', 1]]        # both registered, both waiting
+            ops += [['publish', k + 1] for k in range(n)]                                   # subscriber 0 never takes them
+            ops += [['next', 1]] * 3 + [['latest'], ['close']] + [['next', 1]] * 2 + [['next', 0]] * 3
+            out.append((cache, ops))
+    return out
 
 
 def gen_broker_case(rng, maxlen: int):
@@ -417,6 +440,11 @@ def _run_cases(ctx, item_cases, broker_cases) -> Corr:
                 outs = loop.run_until_complete(run_item(cache, ops))
             except AtomicityError:
                 corr.mismatches.append({'kind': 'atomicity', 'cache': cache, 'ops': ops})
+                # a publish / close that suspends waits for some subscriber to make room or to move: a subscriber that fell behind or
+                # stopped early then holds up the publisher and, through it, every other subscriber
+                corr.violations.append(Violation('item:operation-suspends', 'publish()/aclose() of a PubSubItem did not complete at once: it waits on a '
+                                                 f'subscriber ({sum(1 for o in ops if o[0] == "publish")} items published, a subscriber that does not take them)',
+                                                 {'level': 'item', 'cache': cache, 'ops': ops}))
                 continue
             obs_item.append((cache, ops, outs))
             for op in ops:
@@ -523,7 +551,7 @@ def correspond(ctx) -> Corr:
         n_item, n_broker, maxlen, exh = 1200, 600, 25, 3
     else:
         n_item, n_broker, maxlen, exh = 30000, 12000, 40, 5
-    item_cases = list(corpus_item) + [gen_item_case(rng, maxlen) for _ in range(n_item)]
+    item_cases = list(corpus_item) + backlog_item_cases() + [gen_item_case(rng, maxlen) for _ in range(n_item)]
     ex = list(exhaustive_item_cases(exh))
     item_cases += ex
     broker_cases = list(corpus_broker) + [gen_broker_case(rng, maxlen) for _ in range(n_broker)]
